@@ -318,9 +318,7 @@ func TestVerifC17HTTPServe(t *testing.T) {
 		if qok {
 			wdone := make(chan struct{})
 			go func() { r.wg.Wait(); close(wdone) }()
-			select {
-			case <-wdone:
-			case <-time.After(vfC17WaitBound()):
+			if !r.awaitOrStuck(wdone) {
 				qok, qwhy = false, "capacity change still not done after every connection was closed"
 			}
 		}
@@ -329,6 +327,7 @@ func TestVerifC17HTTPServe(t *testing.T) {
 		hist := strings.Join(r.hist, "; ")
 		viols := append([]vfC17Viol(nil), r.viols...)
 		finalCap := r.lastIssued
+		stuck := r.stuck
 		heldBack, reuse := r.heldBackSeen, r.reuseSeen
 		stableAcc, inflAcc, peak := r.stableAccepts, r.inflightAccepts, r.peak
 		r.mu.Unlock()
@@ -365,6 +364,11 @@ func TestVerifC17HTTPServe(t *testing.T) {
 				return
 			}
 		}
+		if stuck != "" {
+			if vf.Violation(rt, "capacity-change-can-never-be-applied", "a run-time change of the cap (last configured: %d) will never be in force: the goroutine applying it is blocked for good, and every later change queues behind it\nblocked goroutine:\n%s\n[net/http over loopback TCP] script: %s\nhistory: %s", finalCap, stuck, script, hist) {
+				return
+			}
+		}
 		if inconclusive != "" {
 			rt.Fatalf("VF-INCONCLUSIVE %s", inconclusive)
 		}
@@ -375,13 +379,13 @@ func TestVerifC17HTTPServe(t *testing.T) {
 			vf.Class("probe-unavailable:listener-semaphore (http: changes via SetMaxConnection only, no permit count)")
 		}
 		if vfC17ProbeOK && r.sem != nil {
-			free := vfC17Free(r.sem, finalCap+3)
-			if free < finalCap {
+			free, lost, above, _ := vfC17FreeVsCap(r.sem, finalCap)
+			if lost {
 				if vf.Violation(rt, "capacity-lost-after-all-connections-closed", "everything closed and every change done: %d free permits, cap %d (released capacity is not usable again)\n[net/http over loopback TCP] script: %s\nhistory: %s", free, finalCap, script, hist) {
 					return
 				}
 			}
-			if free > finalCap {
+			if above {
 				if vf.Violation(rt, "capacity-above-cap-after-all-connections-closed", "everything closed and every change done: >=%d free permits, cap %d\n[net/http over loopback TCP] script: %s\nhistory: %s", free, finalCap, script, hist) {
 					return
 				}
